@@ -40,6 +40,9 @@ type RecFetcher struct {
 	// MarkerDNE: an unavailable bound name is reported as cached and its value is the DNE marker (the way a value map
 	// given to NewCtxFromVars marks a variable as unknown) instead of being reported as not cached.
 	MarkerDNE bool
+	// FailCached: every name counts as cached; a name without a value fails when it is read (a cache entry that cannot be
+	// decoded, a store that lost a key): TryEval then fails where Eval fails
+	FailCached bool
 	// Self: the compiled expression this fetcher is used with (for cself, the operator that evaluates the expression it
 	// occurs in once more, with its own context)
 	Self *eval.Expr
@@ -78,6 +81,9 @@ func (f *RecFetcher) Cached(k eval.VariableKey, s string) bool {
 	}
 	if f.AvailHash {
 		return hashStr(s)%3 != 0
+	}
+	if f.FailCached {
+		return true
 	}
 	_, ok := f.Vals[s]
 	if f.Avail != nil {
